@@ -103,12 +103,19 @@ def setup():
   open(os.path.join(d, 'Zc06Upper', '__init__.py'), 'w').close()
   with open(os.path.join(d, 'Zc06Upper', 'Mod.py'), 'w') as fh:
     fh.write("def fn(a=None, b=None):\n  return (a, b)\n")
+  # three library modules with the same last component, each registering its function by decorator
+  for pk, fn in (('c06qa', 'fa'), ('c06qb', 'fb'), ('c06qc', 'fc')):
+    os.makedirs(os.path.join(d, pk))
+    open(os.path.join(d, pk, '__init__.py'), 'w').close()
+    with open(os.path.join(d, pk, 'util.py'), 'w') as fh:
+      fh.write("import gin\n\n@gin.configurable\ndef %s(x=None):\n  return x\n" % fn)
   sys.path.insert(0, d)
   import atexit
   atexit.register(lambda: shutil.rmtree(d, ignore_errors=True))
   gin.config.register_file_reader(lambda p: io.StringIO(MEM[p]), lambda p: p in MEM)
   import c06pkg.sub.mod  # pylint: disable=import-outside-toplevel,unused-import
   import c06pkg.other  # pylint: disable=import-outside-toplevel,unused-import
+  import c06qa.util, c06qb.util, c06qc.util  # pylint: disable=import-outside-toplevel,unused-import,multiple-imports
 
 
 class Obj:
@@ -564,6 +571,78 @@ def gen(tier):
   for scope in DOTTED_SCOPES:
     for how in ('bind', 'reference_then_bind'):
       yield ['dotted', scope, how]
+  yield ['dynorder']
+  yield ['rereg', True]
+  yield ['rereg', False]
+
+
+# --------------------------------------------------------------------- a referenced function is registered again
+def _rr_fn(x=None):
+  return x
+
+
+def run_rereg(case, res):
+  """History: a function is registered, referenced from a binding, and then registered again under the same name (a
+  module imported twice under two names does this): the reference binding is still literally representable."""
+  _, evaluate = case
+  harness.hard_reset()
+  gin.external_configurable(_rr_fn, 'rr_fn', module='c06rr')
+  gin.parse_config('c06.g.t = @c06rr.rr_fn%s\nc06rr.rr_fn.x = 1\n' % ('()' if evaluate else ''))
+  before = gin.config_str()
+  gin.external_configurable(_rr_fn, 'rr_fn', module='c06rr')
+  res.case(('rereg', evaluate), True)
+  after = gin.config_str()
+  if after != before:
+    res.violation('rereg_changes_text', 'the same function registered again under the same name: config_str() was\n%s\n--- and '
+                  'is now\n%s' % (before, after), case)
+    return
+  harness.hard_reset()
+  gin.external_configurable(_rr_fn, 'rr_fn', module='c06rr')
+  gin.parse_config(after)
+  t = gin.get_configurable('c06.g')()
+  if (t if evaluate else t()) != 1:
+    res.violation('binding_not_restored', 're-registered referenced function: round trip gives %r\n%s' % (t, after), case)
+  else:
+    res.w('reference_survives_reregistration')
+
+
+# --------------------------------------------------------------- dynamic registration: binding order and implicit imports
+def run_dynorder(case, res):
+  """Configurables registered by their libraries (no import statement of the config names them) whose modules share the
+  last component: the aliases config_str() hands out must not depend on the order in which the bindings were made."""
+  items = [('c06qa.util.fa.x', 1), ('c06qb.util.fb.x', 2),
+           ('c06qc.util.fc.x', cfg.ConfigurableReference('c06qb.util.fb', True))]
+  texts = {}
+  for perm in itertools.permutations(range(3)):
+    harness.hard_reset()
+    gin.parse_config(HEAD)
+    for i in perm:
+      k, v = items[i]
+      gin.bind_parameter(k, cfg.ConfigurableReference('c06qb.util.fb', True) if i == 2 else v)
+    res.case(('dynorder', perm), True)
+    try:
+      texts[perm] = gin.config_str()
+    except Exception as e:  # pylint: disable=broad-except
+      res.violation('config_str_raises', 'dynamic registration, bindings made in the order %r: config_str() raised %r' % (perm, e), case)
+      return
+  if len(set(texts.values())) != 1:
+    a, b = sorted(texts.items())[0], [kv for kv in sorted(texts.items()) if kv[1] != sorted(texts.items())[0][1]][0]
+    res.violation('dynamic_text_depends_on_order', 'dynamic registration: bindings made in the order %r give\n%s\n--- in the '
+                  'order %r:\n%s' % (a[0], a[1], b[0], b[1]), case)
+    return
+  text = texts[(0, 1, 2)]
+  harness.hard_reset()
+  try:
+    gin.parse_config(text)
+    import c06qa.util as A, c06qc.util as C  # pylint: disable=import-outside-toplevel,multiple-imports
+    got = (gin.get_configurable(A.fa)(), gin.get_configurable(C.fc)())
+  except Exception as e:  # pylint: disable=broad-except
+    res.violation('dynamic_config_str_unparseable', 'implicit imports with colliding names: %r\n%s' % (e, text), case)
+    return
+  if got != (1, 2):
+    res.violation('dynamic_roundtrip_objects', 'implicit imports with colliding names: the re-parsed text gives %r\n%s' % (got, text), case)
+  else:
+    res.w('implicit_colliding_imports_order_free')
 
 
 # ----------------------------------------------------------------------------------------- dotted scope names
@@ -619,6 +698,10 @@ def run_shard(i, tier):
         run_late(c, res)
       elif c[0] == 'dotted':
         run_dotted(c, res)
+      elif c[0] == 'dynorder':
+        run_dynorder(c, res)
+      elif c[0] == 'rereg':
+        run_rereg(c, res)
       else:
         run_dyn(c, res)
     except Exception:  # pylint: disable=broad-except
@@ -639,6 +722,10 @@ def replay(desc):
     run_late(desc, res)
   elif desc[0] == 'dotted':
     run_dotted(desc, res)
+  elif desc[0] == 'dynorder':
+    run_dynorder(desc, res)
+  elif desc[0] == 'rereg':
+    run_rereg(desc, res)
   else:
     run_config(desc[1], 'thorough', res)
   harness.hard_reset()
